@@ -1595,6 +1595,10 @@ class AsyncGraph:
         # if len(self._synchronizer.action) > 0:
         #     self._synchronizer.action[-1].cancel()
 
+        # Make sure the supervisor never starts waiting for an action that will not come (a ready step may already
+        # be queued behind the one whose action future is cancelled below).
+        self._synchronizer._must_reset = True
+
         # Stop all nodes
         fs = [n._stop(timeout=timeout) for n in self._async_nodes.values()]
 
